@@ -126,23 +126,24 @@ T = {
 
 # additions of the last rounds (DESIGN 8.4 "seventh round", 8.6, 8.7), appended to the texts above
 EXTRA = {
-    'C01': ' Later: bit arrays of little-endian storage order, bits handed out by load_bits, copy/deepcopy/pickle routes, second-order derivations of every product, recomputed representation hash of ordinary cells over exotic children.',
-    'C03': ' Later: the raw bytes in bytearray / memoryview / array containers.',
-    'C05': ' Later: every rejection also through Slice / Builder entry points and Boc(data).deserialize(cls) for each class.',
-    'C06': ' Later: snake chains up to 130 048 bytes, wide-item buffers, texts outside the Unicode normal forms.',
-    'C07': ' Later: bits as iterators / generators / spaced bit strings, bytes-like objects with items wider than a byte (fits / one item too many) at every fill level.',
-    'C08': ' Later: looking is not using (repr, str, hash, ==, copy / pickle protocols), the public Cell / Slice constructors over the cell\'s and the caller\'s own arrays.',
-    'C09': ' Later: keys entering through map_ / .map, anycast Address keys, combs nesting 450 / 600 / 1000 forks under the default recursion limit (recorded finding above ~490).',
+    'C02': ' Later: the recomputed representation hash of every cell type (Merkle cells over pruned descendants included) through the M-INV hook.',
+    'C01': ' Later: bit arrays of little-endian storage order, bits handed out by load_bits, copy/deepcopy/pickle routes, second-order derivations of every product, recomputed representation hash of ordinary cells over exotic children. Round 8: M-INV compares calculate_representation_hash() with the hash for every cell of every type.',
+    'C03': ' Later: the raw bytes in bytearray / memoryview / array containers. Round 8: a cell and its twin of another type in separate bags, both orders, every entry point.',
+    'C05': ' Later: every rejection also through Slice / Builder entry points and Boc(data).deserialize(cls) for each class. Round 8: one- and two-cell bags whose descriptor announces 1..4 references (self / dangling), with and without CRC.',
+    'C06': ' Later: snake chains up to 130 048 bytes, wide-item buffers, texts outside the Unicode normal forms. Round 8: external addresses given as byte strings / hex text by their own length (leading zero bits), ExternalAddress(None), copies of anycast addresses.',
+    'C07': ' Later: bits as iterators / generators / spaced bit strings, bytes-like objects with items wider than a byte (fits / one item too many) at every fill level. Round 8: 4..9 references through eight routes (constructors, Slice.to_cell, builder reference list edited, bags announcing 5-7 references), account ids that are not 256 bits, anycast depth 0 / 31, out-of-range values through every single-bit store.',
+    'C08': ' Later: looking is not using (repr, str, hash, ==, copy / pickle protocols), the public Cell / Slice constructors over the cell\'s and the caller\'s own arrays. Round 8: public argument-less recompute methods inside the histories with per-level hashes / recomputed representation hash in the registry, every VM value serialiser called directly, plain-bit-array cells looked at through parents / slices / builders.',
+    'C09': ' Later: keys entering through map_ / .map, anycast Address keys, combs nesting 450 / 600 / 1000 forks under the default recursion limit (recorded finding above ~490). Round 8: over-long bit-string / bytes keys whose extra leading bits are zero, anycast Address keys at 267 bits and at their own width, direct edits of .map between serialisations.',
     'C10': ' Later: trees nesting 450 / 600 / 1000 forks under the default recursion limit (recorded finding above ~490).',
     'C11': ' Later: forgeries of the proof cell itself (all 16 depth bits, length, reference count), pruned masks without slots, roots of account proofs that are not Merkle proofs, proofs through copy / pickle.',
     'C12': ' Later: validator set as tuple / generator / iterator / map / dict view; block id used before the check.',
     'C13': ' Later: out-of-domain addresses built and rendered between the valid round trips.',
-    'C14': ' Later: id-like bytes where they must stay bytes, bytes-like field values, damaged parses and a storm of failing nested payloads between valid calls on one schemas object.',
-    'C15': ' Later: exotic bodies, NFT data from address text, highload wallet data with queries, damaged parses before valid ones.',
+    'C14': ' Later: id-like bytes where they must stay bytes, bytes-like field values, damaged parses and a storm of failing nested payloads between valid calls on one schemas object. Round 8: several TL objects in one bytes field (parsed to a list; what the parser returns must serialise back).',
+    'C15': ' Later: exotic bodies, NFT data from address text, highload wallet data with queries, damaged parses before valid ones. Round 8: exotic bodies when header and inline state-init take all four references.',
     'C16': ' Later: damaged versions of each cell parsed before the valid one.',
     'C17': ' Later: re-serialisation of everything parsed, VmStackList directly, keyword order of continuations, failed-then-repaired serialisation, tuples / nesting / stacks up to 1000 (recorded finding above ~490 levels).',
     'C18': ' Later: inputs built around every 2..8-byte constant of the library source; valid calls right after calls with invalid arguments.',
-    'C19': ' Later: leafless ladders ending in library / Merkle cells, equal DAGs made of distinct objects.',
+    'C19': ' Later: leafless ladders ending in library / Merkle cells, equal DAGs made of distinct objects. Round 8: dictionary families measured against the input size n+e (three recorded findings: augmented parser on leafless ladders through both entry points, plain parser on shared subtrees that yield leaves).',
     'C20': ' Later: the generator under a steered entropy source (rare digest contents, a run of 1500 rejected draws), word counts other than 24 (recorded finding).',
 }
 
